@@ -736,3 +736,40 @@ Proof.
   cbn [erase5 erase_dot erase_exclude erase_global erase_vcs erase_parent map_dirs map_cmd w_below].
   repeat apply map_nonempty. exact HB.
 Qed.
+
+(* ================================================================ what `last component` means *)
+Lemma alsf_spec p : forall i best,
+  (after_last_slash_from i best p = best /\ ~ In SLASH p) \/
+  (exists j, after_last_slash_from i best p = i + j + 1 /\ nth_error p j = Some SLASH /\ ~ In SLASH (skipn (j + 1) p)).
+Proof.
+  induction p as [|c r IH]; intros i best; cbn [after_last_slash_from].
+  - left. split; [reflexivity|intros []].
+  - destruct (c =? SLASH)%N eqn:E.
+    + apply N.eqb_eq in E. subst c. destruct (IH (S i) (S i)) as [[H1 H2]|(j & H1 & H2 & H3)].
+      * right. exists 0. rewrite H1. split; [lia|]. split; [reflexivity|exact H2].
+      * right. exists (S j). rewrite H1. split; [lia|]. split; [exact H2|exact H3].
+    + apply N.eqb_neq in E. destruct (IH (S i) best) as [[H1 H2]|(j & H1 & H2 & H3)].
+      * left. split; [exact H1|]. intros [H|H]; [apply E; exact H|exact (H2 H)].
+      * right. exists (S j). rewrite H1. split; [lia|]. split; [exact H2|exact H3].
+Qed.
+
+Lemma firstn_S_nth {A} (l : list A) : forall j x, nth_error l j = Some x -> firstn (S j) l = firstn j l ++ [x].
+Proof.
+  induction l as [|y r IH]; intros [|j] x H; try discriminate.
+  - cbn in H. injection H as ->. reflexivity.
+  - cbn [nth_error] in H. change (firstn (S (S j)) (y :: r)) with (y :: firstn (S j) r).
+    rewrite (IH j x H). reflexivity.
+Qed.
+
+(* the last component: what follows the last '/', or the whole path when there is none *)
+Lemma last_component_char p :
+  ~ In SLASH (last_component p) /\
+  exists pre, p = pre ++ last_component p /\ (pre = [] \/ exists pre', pre = pre' ++ [SLASH]).
+Proof.
+  unfold last_component, after_last_slash.
+  destruct (alsf_spec p 0 0) as [[H1 H2]|(j & H1 & H2 & H3)]; rewrite H1.
+  - cbn [skipn]. split; [exact H2|]. exists []. split; [reflexivity|left; reflexivity].
+  - replace (0 + j + 1) with (j + 1) by lia. split; [exact H3|].
+    exists (firstn (j + 1) p). split; [symmetry; apply firstn_skipn|].
+    right. exists (firstn j p). replace (j + 1) with (S j) by lia. apply firstn_S_nth. exact H2.
+Qed.
